@@ -5,6 +5,14 @@
 from .specs import SPEC_BY_TYPE, make_msgdict
 
 
+def _value2str(value):
+    # bool is an int: True is a valid value (1), but 'True' cannot be
+    # parsed back by str2msg().
+    if isinstance(value, bool):
+        value = int(value)
+    return str(value)
+
+
 def msg2str(msg, include_time=True):
     type_ = msg['type']
     spec = SPEC_BY_TYPE[type_]
@@ -15,11 +23,11 @@ def msg2str(msg, include_time=True):
         value = msg[name]
 
         if name == 'data':
-            value = '({})'.format(','.join(str(byte) for byte in value))
-        words.append(f'{name}={value}')
+            value = '({})'.format(','.join(_value2str(byte) for byte in value))
+        words.append(f'{name}={_value2str(value)}')
 
     if include_time:
-        words.append('time={}'.format(msg['time']))
+        words.append('time={}'.format(_value2str(msg['time'])))
 
     return str.join(' ', words)
 
